@@ -168,6 +168,15 @@ variable {ι : Type} {run : ι → BState → Bool → Res}
 def Declined (run : ι → BState → Bool → Res) (pre : List ι) (s : BState) (silent : Bool) : Prop :=
   ∀ j ∈ pre, run j s silent = .ok (false, s)
 
+theorem declined_nil {s : BState} {silent : Bool} : Declined run [] s silent := fun _ h => nomatch h
+
+theorem declined_cons {p : ι} {pre : List ι} {s : BState} {silent : Bool} (hp : run p s silent = .ok (false, s))
+    (h : Declined run pre s silent) : Declined run (p :: pre) s silent := by
+  intro k hk
+  rcases List.mem_cons.mp hk with rfl | hk
+  · exact hp
+  · exact h k hk
+
 /-- **faithfulness of `Declined`**: the chain goes through a declining prefix and calls the next member
     on the very state -/
 theorem runChainG_declined {pre : List ι} {s : BState} {silent : Bool} (h : Declined run pre s silent)
@@ -193,16 +202,12 @@ theorem chain_true_split (hno : ∀ i s s', run i s silent = .ok (false, s') →
     · rename_i s' hr
       simp only [Except.ok.injEq, Prod.mk.injEq, true_and] at h
       subst h
-      exact ⟨[], r, rs, rfl, fun _ hj => by cases hj, hr⟩
+      exact ⟨[], r, rs, rfl, declined_nil, hr⟩
     · rename_i s' hr
       have := hno _ _ _ hr
       subst this
       obtain ⟨pre, j, post, rfl, hd, hj⟩ := ih h
-      refine ⟨r :: pre, j, post, rfl, ?_, hj⟩
-      intro k hk
-      rcases List.mem_cons.mp hk with rfl | hk
-      · exact hr
-      · exact hd k hk
+      exact ⟨r :: pre, j, post, rfl, declined_cons hr hd, hj⟩
 
 /-- **look-ahead and real parsing agree on the chain**: if the first look-ahead yes on `s` is member `j`
     (behind `pre`), then the real chain on `s`, when it returns, accepts — with `j` itself, or with a
@@ -212,7 +217,7 @@ theorem chain_agree (hfs : ∀ i s s', run i s false = .ok (false, s') → s' = 
     ∀ (pre : List ι) (j : ι) (post : List ι) {s s1 s2 : BState} {b : Bool},
       run j s true = .ok (true, s1) → runChainG run (pre ++ j :: post) s false = .ok (b, s2) →
       b = true ∧ ∃ pre' j' post', pre ++ j :: post = pre' ++ j' :: post' ∧ Declined run pre' s false ∧
-        run j' s false = .ok (true, s2) ∧ pre'.length ≤ pre.length ∧ (pre'.length = pre.length → j' = j) := by
+        run j' s false = .ok (true, s2) ∧ pre'.length ≤ pre.length ∧ ((pre' = pre ∧ j' = j) ∨ j' ∈ pre) := by
   intro pre
   induction pre with
   | nil =>
@@ -223,7 +228,7 @@ theorem chain_agree (hfs : ∀ i s s', run i s false = .ok (false, s') → s' = 
     · rename_i s' hr
       simp only [Except.ok.injEq, Prod.mk.injEq] at h
       obtain ⟨rfl, rfl⟩ := h
-      exact ⟨rfl, [], j, post, rfl, fun _ hk => by cases hk, hr, Nat.le_refl _, fun _ => rfl⟩
+      exact ⟨rfl, [], j, post, rfl, declined_nil, hr, Nat.le_refl _, .inl ⟨rfl, rfl⟩⟩
     · rename_i s' hr
       exact absurd (hsr _ _ _ _ _ hj hr) (by simp)
   | cons p pre ih =>
@@ -234,16 +239,46 @@ theorem chain_agree (hfs : ∀ i s s', run i s false = .ok (false, s') → s' = 
     · rename_i s' hr
       simp only [Except.ok.injEq, Prod.mk.injEq] at h
       obtain ⟨rfl, rfl⟩ := h
-      exact ⟨rfl, [], p, pre ++ j :: post, rfl, fun _ hk => by cases hk, hr, by simp, fun h => by simp at h⟩
+      exact ⟨rfl, [], p, pre ++ j :: post, rfl, declined_nil, hr, Nat.zero_le _, .inr (List.mem_cons_self ..)⟩
     · rename_i s' hr
       have := hfs _ _ _ hr
       subst this
       obtain ⟨hb, pre', j', post', he, hd, hj', hlen, heq⟩ := ih j post hj h
-      refine ⟨hb, p :: pre', j', post', by rw [List.cons_append, he]; rfl, ?_, hj', by simp; omega, fun h => heq (by simpa using h)⟩
-      intro k hk
-      rcases List.mem_cons.mp hk with rfl | hk
-      · exact hr
-      · exact hd k hk
+      refine ⟨hb, p :: pre', j', post', by rw [List.cons_append, he]; rfl, declined_cons hr hd, hj',
+        by simp only [List.length_cons]; omega, ?_⟩
+      rcases heq with ⟨rfl, rfl⟩ | hm
+      · exact .inl ⟨rfl, rfl⟩
+      · exact .inr (List.mem_cons_of_mem _ hm)
+
+
+/-- two rule functions that agree in look-ahead mode sweep alike -/
+theorem runChainG_silent_ext {run run' : ι → BState → Bool → Res} (h : ∀ i s, run i s true = run' i s true) :
+    ∀ (chain : List ι) (s : BState), runChainG run chain s true = runChainG run' chain s true := by
+  intro chain
+  induction chain with
+  | nil => intro s; rfl
+  | cons r rs ih =>
+    intro s
+    simp only [runChainG, h, ih]
+
+/-- a sweep whose members do not read the tree / `tight` / the reference map does not read them -/
+theorem runChainG_silent_upd (hc : ∀ i s c b m, run i (upd s c b m) true = Except.map (mp c b m) (run i s true))
+    (c : List BNode) (b : Bool) (m : Refs.RefMap) :
+    ∀ (chain : List ι) (s : BState),
+      runChainG run chain (upd s c b m) true = Except.map (mp c b m) (runChainG run chain s true) := by
+  intro chain
+  induction chain with
+  | nil => intro s; rfl
+  | cons r rs ih =>
+    intro s
+    simp only [runChainG, hc]
+    cases run r s true with
+    | error e => rfl
+    | ok w =>
+      obtain ⟨v, s'⟩ := w
+      cases v
+      · exact ih s'
+      · rfl
 
 end chain
 
@@ -271,11 +306,47 @@ theorem tokStepG_runs {ι : Type} {mn : Nat} {chain : List ι} {run : ι → BSt
     {s sE : BState} (h : RunsChain mn s sE) :
     tokStepG mn chain run he s = (runChainG run chain sE false >>= afterStep he sE.line) := by
   obtain ⟨h1, rfl, h2, ⟨ind, h3, h4⟩, h5⟩ := h
+  dsimp only at h2 h3 h5
   unfold tokStepG
   simp only [h1, not_true_eq_false, if_false]
   rw [if_neg (by omega)]
   simp only [h3, ok_bind]
   rw [if_neg (by omega), if_neg (by omega)]
   rfl
+
+
+/-- after an iteration in which the chain accepted and moved to an existing non-blank line `l`, the loop
+    goes round again AT `l` -/
+theorem step_after_accept {ι : Type} {mn : Nat} {chain : List ι} {run : ι → BState → Bool → Res} {he : Bool}
+    {s sE : BState} {l : Nat} {c : List BNode} {m : Refs.RefMap} (hR : RunsChain mn s sE)
+    (hch : runChainG run chain sE false = .ok (true, upd { sE with line := l } c sE.tight m))
+    (hlt : sE.line < l) (_hl : l < sE.lineMax) (hne : sE.isEmpty l = false) :
+    tokStepG mn chain run he s =
+      .ok (.next (he || sE.isEmpty (l - 1)) (upd { sE with line := l } c (!he) m)) := by
+  rw [tokStepG_runs hR, hch, ok_bind]
+  unfold afterStep afterChain
+  have hp : psub l 1 = .ok (l - 1) := by unfold psub; rw [if_pos (by omega)]
+  have hne' : Lines.isEmpty sE.offs l = false := hne
+  simp only [upd, if_true, gt_iff_lt, hlt, pure, Except.pure, ok_bind, hp, BState.isEmpty, hne',
+    Bool.false_eq_true, and_false, if_false]
+
+/-- **the next iteration**: the loop standing at an existing non-blank line below the nesting limit runs
+    the chain there when the line is not outdented, and leaves the frame there when it is -/
+theorem next_iteration {ι : Type} {mn : Nat} {chain : List ι} {run : ι → BState → Bool → Res}
+    {u : BState} (hl : u.line < u.lineMax) (hne : u.isEmpty u.line = false) (hlv : u.level < mn)
+    {ind : Int} (hind : u.lineIndent u.line = .ok ind) :
+    (0 ≤ ind → RunsChain mn u u) ∧
+    (ind < 0 → ∀ he, tokStepG mn chain run he u = .ok (.done u)) := by
+  have hsk : Lines.skipEmptyLines u.offs u.lineMax u.line = u.line := (skipEmpty_spec _ _ _).2.2.1 hne
+  have hu : ({ u with line := Lines.skipEmptyLines u.offs u.lineMax u.line } : BState) = u := by
+    rw [hsk]
+  constructor
+  · intro h0
+    exact ⟨hl, hu.symm, hl, ⟨ind, hind, h0⟩, hlv⟩
+  · intro hneg he
+    unfold tokStepG
+    simp only [hl, not_true_eq_false, if_false, hu]
+    rw [if_neg (by omega)]
+    simp only [hsk, hind, ok_bind, hneg, if_true]
 
 end MdIt.BlockH.C16
